@@ -484,13 +484,17 @@ impl FileCombiner {
             debug_assert!(self.buf.is_empty());
             return Ok(());
         }
+        // Take the queue together with the buffer: if the block can't be stored, the queued
+        // files must not linger with offsets into a buffer that no longer exists, or they
+        // would later be recorded against some other block.
+        let queue = take(&mut self.queue);
         let hash = self
             .block_dir
             .store_or_deduplicate(take(&mut self.buf).freeze(), &mut self.stats, monitor)
             .await?;
         self.stats.combined_blocks += 1;
         self.finished
-            .extend(self.queue.drain(..).map(|qf| IndexEntry {
+            .extend(queue.into_iter().map(|qf| IndexEntry {
                 addrs: vec![Address {
                     hash: hash.clone(),
                     start: qf.start.try_into().unwrap(),
